@@ -3,7 +3,8 @@
   identifier and QoS as the first one; the first has DUP=0, all later ones DUP=1; QoS 0 messages are
   never retransmitted; once PUBREL was sent for a QoS 2 message no PUBLISH for it follows, only PUBREL
   with the same identifier. For every script (all event lists, fault lists, configurations) in which
-  the application submits each message index at most once.
+  the application submits each message index at most once; `.waitElapsed`, `.cancelCtx` and Disconnect
+  in any phase of the reconnect loop are not restricted.
   Property theorems only; the invariant (`Mqtt.Retry.PInv`, `Inv12`) lives in Proofs/RetryMsg.
 -/
 import MqttVerif.Proofs.RetryMsg
@@ -165,13 +166,15 @@ theorem distinct_prefix (s : Script) (hd : s.DistinctMsgs) (n : Nat) :
 
 /-! Non-vacuity: four connections; message 3 is QoS 0 (one attempt); message 1 (QoS 2) needs
     PUBLISH, PUBLISH(dup), PUBREL, PUBREL on three connections; message 2 (QoS 1) is queued behind
-    it, keeps the identifier 65535 drawn on the third connection and is retransmitted on the fourth. -/
+    it, keeps the identifier 65535 drawn on the third connection and is retransmitted on the fourth.
+    Every redial needs the back-off timer to fire first (`.waitElapsed`). -/
 
 def demo : Script :=
   { faults := [.ok, .lostAck, .ok, .lostReq, .ok, .writeFail, .ok],
     evs := [.start, .dialOk 10, .connackOk false [], .app (.pub 3 0), .app (.pub 1 2),
-            .app (.pub 2 1), .dialOk 700, .connackOk true [], .dialOk 65534, .connackOk true [],
-            .dialOk 5, .connackOk true []] }
+            .app (.pub 2 1), .waitElapsed, .dialOk 700, .connackOk true [],
+            .waitElapsed, .dialOk 65534, .connackOk true [],
+            .waitElapsed, .dialOk 5, .connackOk true []] }
 
 example : demo.DistinctMsgs := by unfold Script.DistinctMsgs; decide
 
@@ -187,7 +190,69 @@ example : msgPkts (exec demo) 1 =
     [(.publish 1 2 12 false, .sent .lostAck), (.publish 1 2 12 true, .sent .ok),
      (.pubrel 12 1, .sent .lostReq), (.pubrel 12 1, .sent .ok)] := by decide +kernel
 
-example : (exec demo).conns.length = 4 ∧ lookupPid (exec demo) 2 = some 65535 := by
+example : (exec demo).conns.length = 4 ∧ lookupPid (exec demo) 2 = some 65535 ∧
+    (exec demo).dials = 4 ∧ (exec demo).waits = [0, 0, 0] := by
   decide +kernel
+
+/-- the same script without the `.waitElapsed` events: the loop stays in `.backoff`, the `.dialOk`
+    events find no DialContext call, nothing is retransmitted -/
+def demoNoWait : Script :=
+  { demo with evs := demo.evs.filter (fun e => match e with | .waitElapsed => false | _ => true) }
+
+example : (exec demoNoWait).phase = .backoff ∧ (exec demoNoWait).conns.length = 1 ∧
+    (exec demoNoWait).dials = 1 ∧
+    pubsOf (exec demoNoWait) 1 = [(2, 12, false, .sent .lostAck)] := by decide +kernel
+
+/-- Disconnect while the loop backs off (`.backoff`): the loop exits, the later `.waitElapsed` /
+    `.dialOk` / `.connackOk` events find nothing to act on; the one PUBLISH attempt (DUP = 0) stays
+    the only one -/
+def demoDiscBackoff : Script :=
+  { faults := [.lostAck],
+    evs := [.start, .dialOk 10, .connackOk false [], .app (.pub 1 2), .disconnect,
+            .waitElapsed, .dialOk 20, .connackOk true []] }
+
+example : (exec { demoDiscBackoff with evs := demoDiscBackoff.evs.take 4 }).phase = .backoff ∧
+    (exec demoDiscBackoff).phase = .exited ∧ (exec demoDiscBackoff).conns.length = 1 ∧
+    (exec demoDiscBackoff).dials = 1 ∧
+    pubsOf (exec demoDiscBackoff) 1 = [(2, 11, false, .sent .lostAck)] := by decide +kernel
+
+/-- Disconnect while DialContext is in flight (`.dialGate`): the dial is not interrupted, `.dialOk`
+    creates the second connection and CONNECT goes out on it; the accepted CONNACK then ends the
+    loop without `Retry` (the client is closed), so the message is not transmitted again -/
+def demoDiscDial : Script :=
+  { faults := [.lostAck],
+    evs := [.start, .dialOk 10, .connackOk false [], .app (.pub 1 2), .waitElapsed, .disconnect,
+            .dialOk 20, .connackOk true []] }
+
+example : (exec { demoDiscDial with evs := demoDiscDial.evs.take 6 }).phase = .dialGate ∧
+    (exec { demoDiscDial with evs := demoDiscDial.evs.take 7 }).phase = .connackGate 1 ∧
+    (exec demoDiscDial).phase = .exited ∧ (exec demoDiscDial).dials = 2 ∧
+    allPkts (exec demoDiscDial) =
+      [(.connect, .sent .ok), (.publish 1 2 11 false, .sent .lostAck), (.disconnect, .dead),
+       (.connect, .sent .ok)] ∧
+    (exec demoDiscDial).retryQ = [.rePublish 1 2] := by decide +kernel
+
+/-- the context given to Connect is cancelled while CONNACK is awaited: the connection is closed,
+    Connect returns the error, the loop exits; the request accepted before is attempted once on the
+    closed transport (DUP = 0, identifier 11) and never again -/
+def demoCancel : Script :=
+  { evs := [.start, .app (.pub 1 2), .dialOk 10, .cancelCtx, .waitElapsed, .dialOk 20,
+            .connackOk true []] }
+
+example : (exec demoCancel).phase = .exited ∧ (exec demoCancel).connectErr = true ∧
+    (exec demoCancel).dials = 1 ∧ (exec demoCancel).conns.length = 1 ∧
+    pubsOf (exec demoCancel) 1 = [(2, 11, false, .dead)] ∧
+    (exec demoCancel).retryQ = [.rePublish 1 2] := by decide +kernel
+
+/-- once Connect has returned, the cancellation of its context has no effect -/
+def demoCancelLate : Script :=
+  { demo with evs := demo.evs.take 3 ++ [.cancelCtx] ++ demo.evs.drop 3 }
+
+example : (exec demoCancelLate).ctxCancelled = false ∧
+    allPkts (exec demoCancelLate) = allPkts (exec demo) := by decide +kernel
+
+example : demoNoWait.DistinctMsgs ∧ demoDiscBackoff.DistinctMsgs ∧ demoDiscDial.DistinctMsgs ∧
+    demoCancel.DistinctMsgs ∧ demoCancelLate.DistinctMsgs := by
+  unfold Script.DistinctMsgs; decide
 
 end Mqtt.C12
